@@ -46,6 +46,7 @@ class ScriptedTest:
         self.abort_cls = abort_cls
         self.next = "r"
         self.decider = None  # optional: (call index, disk bytes) -> 'a' | 'r' | 'x'
+        self.answers = (True, False)  # what the module returns for accept / reject (tests answer 1/0, or fall off the end: None)
         self.calls = []  # dict(prefix, args, disk, listing)
         self.trace = []
         self.args_seen = None
@@ -67,7 +68,7 @@ class ScriptedTest:
                                listing=listing, out=out, tmpdir=str(tmpdir)))
         if out == "x":
             raise self.abort_cls("scripted abort")
-        return out == "a"
+        return self.answers[0] if out == "a" else self.answers[1]
 
 
 def tmp_key(name):
